@@ -368,6 +368,25 @@ func (r *cdpRunner) esmPhase(app uint64) {
 	if r.panicked {
 		return
 	}
+	// prefer the CDP app that has the most running generation-2 auctions with bids already placed on them: the shutdown
+	// then meets partly paid auctions, which it has to hand back when their time runs out
+	{
+		n := map[uint64]int{}
+		for _, a := range r.last.AucV2 {
+			if lv, ok := r.last.LockedV2[a.LockedVaultId]; ok && lv.InitiatorType == "vault" && len(a.BiddingIds) > 0 && !r.last.ESM[a.AppId].Status {
+				n[a.AppId]++
+			}
+		}
+		best := 0
+		for _, id := range u.cdpApps {
+			if n[id] > best {
+				app, best = id, n[id]
+			}
+		}
+		if best > 0 {
+			r.rec.Count("esm_executed_with_partly_paid_auctions_running", 1)
+		}
+	}
 	if st, ok := r.last.ESM[app]; ok && st.Status {
 		return
 	}
